@@ -51,7 +51,7 @@ class P(Prop):
             "generated one; state, exception class and return value compared with the Lean model after every call; "
             "non-trivial = history with >=3 successful mutating calls; distinct = distinct op sequences")
     assumptions = ["set-iteration order inside the patched run is the model's ordBy(seed) family"]
-    budget = {"quick": (150, 150), "thorough": (3000, 3000)}
+    budget = {"quick": (450, 450), "thorough": (3000, 3000)}
 
     # ------------------------------------------------------------------ op generation
     def pick(self, k=None, lst=False):
